@@ -102,6 +102,12 @@ fn gen_program(rng: &mut Rng, tid: u32, len: usize, handles: &[&str], wal: bool,
             }
             55..=69 => format!("get {inst} {h}"),
             70..=77 => format!("snap 1 {h}"),
+            _ if wal && rng.chance(1, 5) => {
+                // the snapshot task: ANOTHER store object on the same namespace (the scheduler thread has its own)
+                // writes the snapshot and prunes the change sets while the workers send commands through object 0
+                v.push(Call { line: "wsnap 1 w".to_string(), h: "w".into(), sync: false });
+                continue;
+            }
             _ if wal => {
                 let c = match rng.below(10) {
                     0..=4 => format!("put {}", rng.below(5)),
@@ -147,6 +153,10 @@ fn run_call<const IV: u64>(sys: &Sys<IV>, call: &Call) -> String {
             let kind = BagKind::parse(kind, rest.first().copied()).expect("wcmd");
             let i: usize = i.parse().unwrap();
             crate::fmt_bag(sys.wstores[i].send_command(BagCmd { handle: handle(h), kind }))
+        }
+        ["wsnap", i, h] => {
+            let i: usize = i.parse().unwrap();
+            crate::fmt_bag(sys.wstores[i].update_snapshot(&handle(h)))
         }
         _ => panic!("conc: unknown call {}", call.line),
     }
